@@ -159,7 +159,7 @@ theorem own_trailers_clean (dec : Bytes → DetailsDec) (code : Nat) (msg : Byte
   have hr := percent_roundtrip msg
   have hcode0 : ¬ ((code : Int) < 0 ∨ (code : Int) > 16) := by omega
   have hw : wrap32 (code : Int) = (code : Int) := by simp only [wrap32]; omega
-  simp only [checkGRPCStatus, hS, hM, hD]
+  simp only [checkGRPCStatus, checkStatusCore, statusPart, messagePart, detailsPart, hS, hM, hD]
   cases hdb : detailsBin with
   | none =>
     have hne : ¬ ((code : Int) = 0) := by omega
@@ -169,6 +169,89 @@ theorem own_trailers_clean (dec : Bytes → DetailsDec) (code : Nat) (msg : Byte
     have hne : ¬ ((code : Int) = 0) := by omega
     have hne' : ¬ (code = 0) := by omega
     simp [hparse, hv, hr, hcode0, hne, hne', (hd d hdb).2, hw, detVals]
+
+/-! ## gRPC status trailers: silent on well-formed, vocal on each malformation class -/
+
+/-- The validator of `checkGRPCStatus` accepts exactly the grammar of `grpc-message`
+(`*( %x20-24 / %x26-7E / "%" HEXDIG HEXDIG )`): bad percent-encoding is always reported. -/
+theorem message_validator_iff_grammar (m : Bytes) : validateMessage m 0 = [] ↔ encodingOK m = true :=
+  validate_iff_grammar m
+
+/-- A well-formed status trailer set yields no feedback (any header map, any oracle). -/
+theorem status_wellformed_clean (dec : Bytes → DetailsDec) (h : Hdrs) (hok : statusOK dec h = true) :
+    checkGRPCStatus dec h = [] :=
+  status_clean_core dec _ _ _ hok
+
+/-- Each malformation class the status checks name — multiple / missing / unparseable /
+out-of-range `grpc-status`, multiple `grpc-message`, bad percent-encoding, multiple, non-base64,
+padded or unparseable `grpc-status-details-bin`, code or message disagreement — is reported. -/
+theorem status_malformation_flagged (dec : Bytes → DetailsDec) (h : Hdrs) :
+    ∀ alts ∈ mustFlagStatus dec h, ∃ f ∈ alts, f ∈ checkGRPCStatus dec h :=
+  status_flags_core dec _ _ _
+
+/-- …in the form the correspondence check evaluates on the implementation's output. -/
+theorem status_spec (dec : Bytes → DetailsDec) (h : Hdrs) :
+    statusHolds dec h (checkGRPCStatus dec h) = true := by
+  simp only [statusHolds, Bool.and_eq_true, Bool.or_eq_true, Bool.not_eq_true', List.all_eq_true,
+    List.any_eq_true, List.contains_iff_mem, List.isEmpty_iff]
+  refine ⟨?_, fun alts ha => ?_⟩
+  · cases hok : statusOK dec h with
+    | false => exact Or.inl rfl
+    | true => exact Or.inr (status_wellformed_clean dec h hok)
+  · obtain ⟨f, hf, hm⟩ := status_malformation_flagged dec h alts ha
+    exact ⟨f, hf, by simpa using hm⟩
+
+/-- the classes by name -/
+theorem missing_status_flagged (dec : Bytes → DetailsDec) (h : Hdrs) (hs : hget h kStatus = []) :
+    StFb.noStatus ∈ checkGRPCStatus dec h := by
+  obtain ⟨f, hf, hm⟩ := status_malformation_flagged dec h [.noStatus]
+    (by simp [mustFlagStatus, mustFlagStatusCore, mustStatus, hs])
+  simp at hf; subst hf; exact hm
+
+theorem multiple_status_flagged (dec : Bytes → DetailsDec) (h : Hdrs) (hs : (hget h kStatus).length > 1) :
+    StFb.multiStatus ∈ checkGRPCStatus dec h := by
+  obtain ⟨f, hf, hm⟩ := status_malformation_flagged dec h [.multiStatus]
+    (by simp [mustFlagStatus, mustFlagStatusCore, mustStatus, hs])
+  simp at hf; subst hf; exact hm
+
+theorem bad_percent_encoding_flagged (dec : Bytes → DetailsDec) (h : Hdrs) (m : Bytes) (rest : List Bytes)
+    (hm : hget h kMessage = m :: rest) (he : encodingOK m = false) :
+    ∃ f, StFb.msg f ∈ checkGRPCStatus dec h := by
+  obtain ⟨f, hf, hmem⟩ := status_malformation_flagged dec h [.msg .hexExpected, .msg .unescaped, .msg .incomplete]
+    (by simp [mustFlagStatus, mustFlagStatusCore, mustMessage, hm, he])
+  simp at hf
+  rcases hf with rfl | rfl | rfl <;> exact ⟨_, hmem⟩
+
+theorem bad_base64_flagged (dec : Bytes → DetailsDec) (h : Hdrs) (d : Bytes) (rest : List Bytes)
+    (hd : hget h kDetails = d :: rest) :
+    (dec d = .invalid → StFb.detailsBadBase64 ∈ checkGRPCStatus dec h) ∧
+    (∀ st, dec d = .decoded true st → StFb.detailsPadded ∈ checkGRPCStatus dec h) := by
+  constructor
+  · intro hi
+    obtain ⟨f, hf, hm⟩ := status_malformation_flagged dec h [.detailsBadBase64]
+      (by simp [mustFlagStatus, mustFlagStatusCore, mustDetails, hd, hi])
+    simp at hf; subst hf; exact hm
+  · intro st hp
+    obtain ⟨f, hf, hm⟩ := status_malformation_flagged dec h [.detailsPadded]
+      (by simp [mustFlagStatus, mustFlagStatusCore, mustDetails, hd, hp])
+    simp at hf; subst hf; exact hm
+
+theorem status_details_disagreement_flagged (dec : Bytes → DetailsDec) (h : Hdrs) (s d m : Bytes)
+    (rest : List Bytes) (padded : Bool) (c sc : Int) (msg : Bytes) (hasDetails : Bool)
+    (hs : hget h kStatus = [s]) (hp : parseInt 64 s = some sc)
+    (hd : hget h kDetails = d :: rest) (hdec : dec d = .decoded padded (some (c, msg, hasDetails))) :
+    (c ≠ wrap32 sc → StFb.detailsCodeMismatch ∈ checkGRPCStatus dec h) ∧
+    (∀ ms dm, hget h kMessage = m :: ms → percentDecode m = some dm → msg ≠ dm →
+      StFb.detailsMsgMismatch ∈ checkGRPCStatus dec h) := by
+  constructor
+  · intro hne
+    obtain ⟨f, hf, hm⟩ := status_malformation_flagged dec h [.detailsCodeMismatch]
+      (by simp [mustFlagStatus, mustFlagStatusCore, mustDetails, hd, hdec, hs, hp, hne])
+    simp at hf; subst hf; exact hm
+  · intro ms dm hmv hdm hne
+    obtain ⟨f, hf, hm⟩ := status_malformation_flagged dec h [.detailsMsgMismatch]
+      (by simp [mustFlagStatus, mustFlagStatusCore, mustDetails, hd, hdec, hmv, hdm, hne])
+    simp at hf; subst hf; exact hm
 
 /-- non-vacuity: a concrete error with details and user trailers satisfying every hypothesis -/
 example :
